@@ -73,7 +73,8 @@ def gen_cases(rng, tier, count=None):
             if algo == "DOO":
                 s = 1.0
         else:
-            if algo == "DOO":
+            doo_default = algo == "DOO" and rng.random() < 0.6
+            if algo == "DOO" and not doo_default:
                 algo = "DOO_delta"
             part = None
             if algo == "Zooming":
@@ -93,6 +94,17 @@ def gen_cases(rng, tier, count=None):
                 b = [float(rng.uniform(-100, 100)) for _ in range(dim)]
             else:
                 b = [float(rng.choice([-1, 1]) * 10 ** rng.uniform(0, 9)) for _ in range(dim)]
+            if doo_default:
+                # (continuous rewards: delta(h) looks at the first coordinate only, so in d >= 2 consecutive depths
+                # share one delta and equal rewards would tie exactly - a non-dyadic translation rounds those deltas
+                # differently and the tie is then broken by an ulp, not by a coordinate)
+                c["reward"]["family"] = str(rng.choice(["noisy", "unit", "large", "drift"]))
+                # DOO's default diameter depends on the cell sizes only: pure translation, all partitions, d >= 2 and
+                # boxes that straddle 0 asymmetrically (where a sign-dependent diameter would differ from its image)
+                s = 1.0
+                if rng.random() < 0.7:
+                    box = [[-float(10 ** rng.uniform(-1, 1)), float(10 ** rng.uniform(-1, 1))] for _ in range(dim)]
+                b = [float(rng.uniform(-100, 100)) for _ in range(dim)]
         if i % 10 == 8:
             # tie-rich slice: discrete rewards in d >= 2, recommendation asked after every round - tie-breaking rules
             # are where coordinates can sneak into a decision
@@ -157,6 +169,9 @@ def run_case(case):
         obs["recommendations_compared"] += len(qpairs)
         seqs = list(zip(base["points"] + [base["last"]] + [p for p, _ in qpairs],
                         img["points"] + [img["last"]] + [q for _, q in qpairs]))
+        past = False
+        tol_ok = lambda want, q: all(abs(w - y) <= 1e-9 * abs(s) * (hi - lo) + 256 * float(np.spacing(
+            abs(bj) + abs(s) * (abs(lo) + abs(hi)))) for w, y, (lo, hi), bj in zip(want, q, case["box"], b))
         for i, (p, q) in enumerate(seqs):
             want = [s * x + bj for x, bj in zip(p, b)]
             if exact:
@@ -165,16 +180,23 @@ def run_case(case):
                 if any((x * 2.0 ** 40) != int(x * 2.0 ** 40) or abs(x) > 1024 for x in p) or any(
                         F(s) * F(x) + F(bj) != F(w) or sigbits(w) > 50 for x, bj, w in zip(p, b, want)):
                     obs["exactness_horizon_reached"] += 1
+                    past = True
                     if case["algo"] == "Zooming":
                         break  # its containment tests may legitimately go another way from here on
-                    continue  # other algorithms never look at coordinates: later exact points are still compared
-                obs["points_compared_bit_exactly"] += 1
-                ok = want == q
+                    continue  # other algorithms never look at coordinates: later points are still compared
+                if past:
+                    # a point that looks exact may itself be the rounded centre of a cell a few ulps wide (e.g. 1.0
+                    # for a cell just below 1, while its image near -0.125 sits on a finer grid): once the run has
+                    # been past the horizon the remaining points are compared with the tolerance-tier rule
+                    obs["points_compared_within_tolerance_past_the_horizon"] += 1
+                    ok = tol_ok(want, q)
+                else:
+                    obs["points_compared_bit_exactly"] += 1
+                    ok = want == q
             else:
                 # relative to the box width, plus a few ulps of the image's magnitude (far from the origin the
                 # image coordinates themselves are only known to an ulp)
-                ok = all(abs(w - y) <= 1e-9 * abs(s) * (hi - lo) + 256 * float(np.spacing(
-                    abs(bj) + abs(s) * (abs(lo) + abs(hi)))) for w, y, (lo, hi), bj in zip(want, q, case["box"], b))
+                ok = tol_ok(want, q)
             if not ok:
                 viol.append({"pred": "C16:points_are_not_the_affine_image" + ("_exactly" if exact else ""),
                              "round": i, "detail": C.jsonable({"point": p, "image_expected": want, "image_got": q,
